@@ -16,6 +16,8 @@ type LabelStat struct {
 	Discharged int `json:"discharged"`
 	Failed     int `json:"failed"`
 	Unknown    int `json:"unknown"`
+	// obligations at a label that already had stored counterexamples and were not sent to the solver
+	FailedNotSolved int `json:"failed_not_solved,omitempty"`
 }
 
 type Counterexample struct {
@@ -61,6 +63,8 @@ type EntryResult struct {
 	WallS       float64               `json:"wall_s"`
 	SolverErrors []string             `json:"solver_errors,omitempty"`
 	MaxDepth    int                   `json:"max_fork_depth"`
+	// states left unexplored because the entry already had >= 8 counterexamples stored (entry is red)
+	StoppedAfterViolations int        `json:"stopped_after_violations,omitempty"`
 }
 
 func (r *EntryResult) label(l string) *LabelStat {
@@ -101,6 +105,27 @@ func (ex *Exec) assert(st *State, cond *Term, label string, detail string) {
 		return
 	}
 	neg := ex.Ctx.Not(cond)
+	// a label that already has two unlisted counterexamples stored for native replay is going to be
+	// reported as a violation anyway: do not spend solver time on further failures of the same label
+	// (the condition is assumed from here on, exactly as after a stored counterexample)
+	if ls.Failed >= 4 {
+		n := 0
+		for _, c := range res.CEX {
+			if c.Label == label && c.Known == "" {
+				n++
+			}
+		}
+		if n >= 2 {
+			ls.Failed++
+			ls.FailedNotSolved++
+			if cond.IsFalse() {
+				st.status = Infeasible
+				panic(abort{"stop", "assertion false on whole path"})
+			}
+			st.addPC(cond)
+			return
+		}
+	}
 	// sliced check first
 	r := st.feasibleFinal(neg)
 	if r == Unsat {
@@ -487,6 +512,21 @@ func (ex *Exec) harnessIntrinsic(f *ssa.Function) intrinsic {
 				}
 			}
 			return ex.i64(int64(n))
+		}
+	case "vLastSent":
+		// the value of the most recent send the goroutine under analysis performed on ch (nil interface if none)
+		return func(ex *Exec, st *State, args []Value, site ssa.CallInstruction) Value {
+			ch := args[0].(IfaceV).V.(ChanV)
+			cd := st.chanData(ch)
+			for i := len(st.events) - 1; i >= 0; i-- {
+				e := st.events[i]
+				if e.Kind == "send" && len(e.Args) > 1 {
+					if c2, ok := e.Args[0].(ChanV); ok && c2.Obj == ch.Obj {
+						return IfaceV{T: cd.Elem, V: e.Args[1]}
+					}
+				}
+			}
+			return IfaceV{}
 		}
 	case "vEvent":
 		return func(ex *Exec, st *State, args []Value, site ssa.CallInstruction) Value {
